@@ -310,6 +310,7 @@ func c17ClientCerts(c *Ctx) {
 		}
 	}
 	c.Ev.Sample(map[string]any{"part": "mtls", "cell": "https/expired", "expected": "handshake refused, no DNS response"})
+	c17CrossListenerResumption(c, ca2, ca2Path)
 	// ---- verify_client_cert without a configured ca: the system roots (here: "other-ca" alone) decide
 	b2, err := NewBed(c, "mtls-sysroots", BedOpts{Upstreams: []string{"pipe"}, Listeners: []string{"tls", "https", "quic", "tcp"}, VerifyClientCert: true, NoClientCA: true,
 		Env: map[string]string{"SSL_CERT_FILE": ca2Path, "SSL_CERT_DIR": emptyDir}})
@@ -350,6 +351,77 @@ func c17ClientCerts(c *Ctx) {
 			default:
 				c.Ev.Distinct("mtls-no-ca", listener, kind)
 				c.Ev.Count(fmt.Sprintf("mtls_no_ca_served=%v", served), 1)
+			}
+		}
+	}
+}
+
+
+// c17CrossListenerResumption: two DoT and two DoH listeners in one proxy whose client certificates
+// must chain to different CAs. A client that holds a certificate of the first CA only is served by
+// the first listener (and receives a TLS session ticket there); with the same client configuration
+// and session cache - the ticket on offer - it then connects to the second listener, which must not
+// serve it: what listener A verified says nothing about listener B's CA.
+func c17CrossListenerResumption(c *Ctx, caB *pki.CA, caBPath string) {
+	b, err := NewBed(c, "mtls-two-cas", BedOpts{Upstreams: []string{"pipe"}, Listeners: []string{"tls", "https", "tlsB", "httpsB", "tcp"}, VerifyClientCert: true, ClientCAB: caBPath})
+	if err != nil {
+		c.startFailure(err, "c17-mtls-two-cas")
+		return
+	}
+	defer b.Stop()
+	leafA, _ := b.CA.Leaf(pki.LeafOpt{Names: []string{"client"}, Client: true})
+	leafB, _ := caB.Leaf(pki.LeafOpt{Names: []string{"client"}, Client: true})
+	ask := func(kind string, cfg *tls.Config, id int) (served bool, resumed bool, err error) {
+		q := mkQuery(uint16(id), fmt.Sprintf("ok-xl%d.pipe.test.", id), dns.TypeA, dns.ClassINET, false)
+		if strings.HasPrefix(kind, "https") {
+			hc := dnsclient.NewDoH("https://"+b.L[kind]+"/dns-query", cfg, "h2", "")
+			defer hc.Close()
+			res := hc.Do("POST", q, nil)
+			return res.Err == nil && res.Status == 200 && len(res.Body) >= 12, false, res.Err
+		}
+		sc, err := dnsclient.DialStream("", b.L[kind], cfg)
+		if err != nil {
+			return false, false, err
+		}
+		defer sc.Close()
+		sc.SendFrame(q)
+		sc.WaitFrames(1, 3*time.Second)
+		return len(sc.Frames()) == 1, false, nil
+	}
+	id := 0
+	for rep := 0; rep < c.N(2, 6); rep++ {
+		for _, pair := range [][2]string{{"tls", "tlsB"}, {"https", "httpsB"}, {"tlsB", "tls"}, {"httpsB", "https"}, {"tls", "httpsB"}} {
+			for _, ver := range []uint16{tls.VersionTLS13, tls.VersionTLS12} {
+				first, second := pair[0], pair[1]
+				cfg := b.ProxyTLS.Clone()
+				cfg.ClientSessionCache = tls.NewLRUClientSessionCache(8)
+				cfg.MaxVersion = ver
+				leaf, caName := leafA, "the first listener's CA"
+				if strings.HasSuffix(first, "B") {
+					leaf = leafB
+				}
+				cfg.Certificates = []tls.Certificate{leaf.TLS}
+				id++
+				ok1, _, err1 := ask(first, cfg, id)
+				c.Ev.Eval(1)
+				if !ok1 {
+					c.Violation("mtls:rejected-valid-client-cert:two-cas", fmt.Sprintf("%s listener: a client with a certificate of that listener's CA was not served: %v", first, err1), map[string]any{"listener": first})
+					return
+				}
+				// a second connection to the same listener: resumption as such is fine
+				id++
+				ask(first, cfg, id)
+				id++
+				ok2, _, _ := ask(second, cfg, id)
+				c.Ev.Eval(1)
+				vname := map[uint16]string{tls.VersionTLS13: "TLS 1.3", tls.VersionTLS12: "TLS 1.2"}[ver]
+				if ok2 {
+					c.Violation("mtls:served-without-valid-client-cert:ticket-of-another-listener", fmt.Sprintf("two listeners with verify_client_cert and different ca files: a client holding only a certificate of %s was served by the %s listener and then, offering the session ticket it got there (%s), also by the %s listener, whose ca its certificate does not chain to", caName, first, vname, second),
+						map[string]any{"first": first, "second": second, "tls": vname})
+					return
+				}
+				c.Ev.Distinct("mtls-two-cas", first, second, vname)
+				c.Ev.Count("mtls_ticket_of_other_listener_refused", 1)
 			}
 		}
 	}
